@@ -30,9 +30,62 @@ theorem C12_good (c : Cfg) (r : Req) (i : Inner) (hok : Inner.ok i = true) :
     good (tplOn c r) (effectiveErrors c) i (serve c r i) = true :=
   inv_server _ _ _ _ (inv_chain c r i hok)
 
+theorem statusOK_of_core (tpl : Bool) (m : Option ErrMode) (i : Inner) (r : Resp)
+    (h : goodCore tpl m i r = true) : statusOK tpl m i r = true := by
+  unfold goodCore at h
+  unfold statusOK
+  cases i with
+  | ret s e =>
+    by_cases hs : s ≥ 400
+    · simp only [hs, if_true, Bool.and_eq_true] at h ⊢; exact h.1
+    · simp only [hs, if_false, Bool.and_eq_true] at h ⊢; exact h.1
+  | write s b e k cl =>
+    simp only [Bool.and_eq_true] at h ⊢
+    refine ⟨h.1, ?_⟩
+    have hw := h.2
+    unfold writtenOK at hw
+    cases tpl <;> cases e <;> cases k <;> simp_all
+  | panicBefore => simp only [Bool.and_eq_true] at h ⊢; exact h.1
+  | panicAfter s b =>
+    simp only [Bool.or_eq_true, Bool.and_eq_true] at h ⊢
+    rcases h with h | h
+    · exact Or.inl h.1
+    · exact Or.inr h.1
+
+/-- What is on the wire (net/http's rules for HEAD, 204 and 304, trusted): exactly one
+well-formed response also there — committed once with the status the property asks for, no body,
+no Content-Length on 204/304; for every other response the full predicate. -/
+theorem statusOK_congr (tpl : Bool) (m : Option ErrMode) (i : Inner) (r r' : Resp)
+    (hc : r'.commits = r.commits) (hs : r'.status = r.status) : statusOK tpl m i r' = statusOK tpl m i r := by
+  unfold statusOK; cases i <;> simp only [hc, hs]
+
+theorem C12_good_wire (c : Cfg) (r : Req) (i : Inner) (hok : Inner.ok i = true) :
+    goodWire r.head (tplOn c r) (effectiveErrors c) i (serveWire c r i) = true := by
+  have hg := C12_good c r i hok
+  unfold serveWire
+  generalize serve c r i = R at hg
+  unfold goodWire wire
+  by_cases hb : bodiless r.head R.status = true
+  · have hcore : goodCore (tplOn c r) (effectiveErrors c) i R = true := by
+      unfold good at hg; simp only [Bool.and_eq_true] at hg; exact hg.1
+    have hs := statusOK_of_core _ _ _ _ hcore
+    have key : ∀ R' : Resp, R'.commits = R.commits → R'.status = R.status →
+        statusOK (tplOn c r) (effectiveErrors c) i R' = true :=
+      fun R' h1 h2 => by rw [statusOK_congr _ _ _ R R' h1 h2]; exact hs
+    simp only [hb, if_true, Bool.and_eq_true]
+    refine ⟨⟨key _ rfl rfl, rfl⟩, ?_⟩
+    by_cases h24 : R.status = 204 ∨ R.status = 304
+    · rcases h24 with h24 | h24 <;> simp [h24]
+    · have h1 : ¬ R.status = 204 := fun e => h24 (Or.inl e)
+      have h2 : ¬ R.status = 304 := fun e => h24 (Or.inr e)
+      simp [h1, h2]
+  · have hb' : bodiless r.head R.status = false := by simpa using hb
+    simp only [hb', Bool.false_eq_true, if_false]
+    exact hg
+
 theorem C12_model_verdict_ok (c : Cfg) (r : Req) (i : Inner) (hok : Inner.ok i = true) :
-    verdict (tplOn c r) (effectiveErrors c) i (serve c r i) = "ok" := by
-  unfold verdict; rw [C12_good c r i hok]; rfl
+    verdict r.head (tplOn c r) (effectiveErrors c) i (serveWire c r i) = "ok" := by
+  unfold verdict; rw [C12_good_wire c r i hok]; rfl
 
 theorem C12_core (c : Cfg) (r : Req) (i : Inner) (hok : Inner.ok i = true) :
     goodCore (tplOn c r) (effectiveErrors c) i (serve c r i) = true := by
@@ -167,6 +220,32 @@ theorem C12_nothing_invented (c : Cfg) (r : Req) (s : Nat) (hs : s < 400) (hv : 
   simp only [hn, if_false, Bool.and_eq_true, decide_eq_true_eq, List.isEmpty_iff] at h
   exact ⟨h.1.1, h.2⟩
 
+/-- "Only that request is affected": whatever a request did — including a panic before or after
+writing, through any stack — the responses to the requests that follow on the same server are the
+responses those requests would get on a fresh server: each is a function of its own request alone.
+(The server state of the model: the gzip writer pool, the templates buffer pool, the access log;
+the middleware chain is never written by a request.) -/
+theorem C12_panic_isolated (c : Cfg) (st : ServerState) (first : Req × Inner) (later : List (Req × Inner)) :
+    (serveAll c st (first :: later)).tail = later.map (fun q => serve c q.1 q.2) := by
+  rw [serveAll_eq]; rfl
+
+/-- … and for the request itself: the state earlier requests left does not show in its response. -/
+theorem C12_response_independent_of_state (c : Cfg) (r : Req) (i : Inner) (st st' : ServerState) :
+    (serveSt true c r i st).1 = (serveSt true c r i st').1 := by
+  rw [serveSt_resp, serveSt_resp]
+
+/-- What a request leaves behind differs from what it found only in benign components: every
+scratch object it took is back in its pool — also when the handler panicked — (a new one was
+made if the pool was empty), holding bytes that the next user clears; the access log grew by at
+most one entry.  Nothing else exists in the state. -/
+theorem C12_state_after (c : Cfg) (r : Req) (i : Inner) (st : ServerState) :
+    let st' := (serveSt true c r i st).2
+    (st'.tplPool.length = if c.templates then max 1 st.tplPool.length else st.tplPool.length) ∧
+    (st.gzPool.length ≤ st'.gzPool.length ∧ st'.gzPool.length ≤ max 1 st.gzPool.length) ∧
+    (st.logLines ≤ st'.logLines ∧ st'.logLines ≤ st.logLines + 1) := by
+  simp only [serveSt]
+  exact ⟨putBack_length _ _ _, putBack_bounds _ _ _, logAfter_bounds _ _⟩
+
 def isSubseq : List String → List String → Bool
   | [], _ => true
   | _ :: _, [] => false
@@ -185,27 +264,27 @@ def full : Cfg := { log := true, gzip := true, header := true, errors := some .p
 
 /-- test: full stack, template request offering gzip, handler returns (404, err): one commit,
 404, the configured page, gzip-coded, no Content-Length -/
-example : serve full ⟨true, true⟩ (.ret 404 true) =
+example : serve full ⟨true, true, false⟩ (.ret 404 true) =
     { commits := 1, status := 404, body := [(.custom 404, true)], cl := none, live := none } := by decide
 
 /-- test: F16 — templates around a handler that wrote 201 "hi" with Content-Length and returned (0, err) -/
-example : serve { full with gzip := false, errors := none } ⟨true, false⟩ (.write (some 201) [104, 105] true .plain true) =
+example : serve { full with gzip := false, errors := none } ⟨true, false, false⟩ (.write (some 201) [104, 105] true .plain true) =
     { commits := 1, status := 201, body := [(.inner [104, 105], false)], cl := some (.inner [104, 105]),
       live := some (.inner [104, 105]) } := by decide
 
 /-- test: the seeded scenario — templates, no gzip, a body with its own Content-Length that parses
 but fails in Execute: a clean 500 with no Content-Length left behind -/
-example : serve { full with gzip := false, errors := none, log := false, header := false } ⟨true, false⟩
+example : serve { full with gzip := false, errors := none, log := false, header := false } ⟨true, false, false⟩
       (.write (some 200) [1, 2, 3] false .tplExec true) =
     { commits := 1, status := 500, body := [(.errText 500, false)], cl := none, live := none } := by decide
 
 /-- test: a template that renders gets the length of the rendered text -/
-example : (serve { full with gzip := false } ⟨true, false⟩ (.write none [1, 2, 3] false .tplOK true)).cl =
+example : (serve { full with gzip := false } ⟨true, false, false⟩ (.write none [1, 2, 3] false .tplOK true)).cl =
     some (.rendered [1, 2, 3]) := by decide
 
 /-- test: no `errors`, no `gzip`: a panic after writing reaches Server.ServeHTTP, whose fallback
 is a second commit attempt after the handler's own bytes (the tolerated exception) -/
-example : (serve { full with gzip := false, errors := none, templates := false, header := false } ⟨true, false⟩
+example : (serve { full with gzip := false, errors := none, templates := false, header := false } ⟨true, false, false⟩
       (.panicAfter (some 200) [1])).commits = 2 := by decide
 
 /-- non-vacuity: the contract hypothesis `Inner.ok` admits every kind of behaviour, and excludes
@@ -217,9 +296,21 @@ example : Inner.ok (.ret 404 true) = true ∧ Inner.ok (.ret 0 false) = true ∧
     Inner.ok (.write (some 7) [1] false .plain false) = false := by
   decide
 
+/-- test (the isolation theorem is about the clearing of pooled objects): on a server that did
+NOT clear them when taken, the body a panicking request left in the templates buffer would show up
+in the next response -/
+example :
+    let c : Cfg := { full with gzip := false, errors := none, log := false, header := false }
+    let st0 : ServerState := { gzPool := [], tplPool := [], logLines := 0 }
+    let st1 := (serveSt false c ⟨true, false, false⟩ (.write (some 200) [9] false .plain false) st0).2
+    (serveSt false c ⟨true, false, false⟩ (.write (some 200) [1] false .plain false) st1).1 ≠
+      serve c ⟨true, false, false⟩ (.write (some 200) [1] false .plain false) ∧
+    (serveSt true c ⟨true, false, false⟩ (.write (some 200) [1] false .plain false) st1).1 =
+      serve c ⟨true, false, false⟩ (.write (some 200) [1] false .plain false) := by decide
+
 /-- non-vacuity of the hypotheses of `C12_written_response_unaltered` / `C12_templates_outcomes` -/
-example : (tplOn full ⟨false, true⟩ && !false) = false ∧ (tplOn full ⟨true, true⟩ && !true) = false ∧
-    tplOn full ⟨true, false⟩ = true := by decide
+example : (tplOn full ⟨false, true, false⟩ && !false) = false ∧ (tplOn full ⟨true, true, false⟩ && !true) = false ∧
+    tplOn full ⟨true, false, false⟩ = true := by decide
 
 /-- test: the judge rejects a dropped body, a doubled commit, a wrong error page, and a 500 that
 carries the Content-Length of the unrendered template (the seeded regression) -/
